@@ -472,6 +472,76 @@ def r19_15(ctx):
         ctx.ok(where, "escape sequences in front of a carriage return reach the tokenizer", f.fq)
     if "ab" not in results["xy\rab"]:
         ctx.violation(f.fq, norm(tcall), where, f"the text after the last carriage return is lost ('xy\\rab' -> {results['xy' + chr(13) + 'ab']!r})")
+    # (c) inside the token loop: a plain-text piece WITHOUT a carriage return is appended to the line decoded so far; one WITH a
+    # carriage return restarts the line and contributes what follows the last one.  The plain-text branch is folded for the pieces
+    # 'ab', 'xy\rab' and 'xy\r': (restarted?, appended text) must be (no, 'ab'), (yes, 'ab'), (yes, '')
+    lp = next((x for x in ast.walk(top) if isinstance(x, ast.For) and any(y is tcall for y in ast.walk(x.iter))), None)
+    if lp is None:
+        raise AnalysisError("decode_line: the loop over the tokens was not found")
+    pv = None
+    if isinstance(lp.target, ast.Tuple) and len(lp.target.elts) == 3 and isinstance(lp.target.elts[0], ast.Name):
+        pv = lp.target.elts[0].id
+    for x in lp.body:
+        if isinstance(x, ast.Assign) and isinstance(x.targets[0], ast.Tuple) and len(x.targets[0].elts) == 3 and isinstance(x.value, ast.Name) and isinstance(lp.target, ast.Name) and x.value.id == lp.target.id and isinstance(x.targets[0].elts[0], ast.Name):
+            pv = x.targets[0].elts[0].id
+    branch = next((x for x in lp.body if isinstance(x, ast.If) and norm(x.test) == pv), None) if pv else None
+    if branch is None:
+        raise AnalysisError("decode_line: the plain-text branch of the token loop (`if plain_text:`) was not found; clause (c) is not decided")
+
+    al1915 = alias_map(f.node)
+
+    def fold_piece(piece):
+        env = {pv: piece}
+        state = {"restart": False, "out": None}
+
+        def run(body):
+            for st in body:
+                if isinstance(st, ast.If):
+                    okc, val = _fold_env(st.test, env)
+                    if not okc:
+                        raise AnalysisError(f"decode_line: `{norm(st.test)}` cannot be folded for the piece {piece!r}")
+                    run(st.body if val else st.orelse)
+                elif isinstance(st, ast.Assign) and len(st.targets) == 1 and isinstance(st.targets[0], ast.Name) and isinstance(st.value, ast.Call) and norm(st.value.func) in ("Text", "_Text") and not st.value.args:
+                    state["restart"] = True
+                elif isinstance(st, ast.Expr) and isinstance(st.value, ast.Call) and isinstance(st.value.func, ast.Attribute) and st.value.func.attr == "clear" and not st.value.args:
+                    state["restart"] = True  # the list of pieces decoded so far is emptied: the line starts again
+                elif isinstance(st, ast.Delete) and all(isinstance(t_, ast.Subscript) and isinstance(t_.slice, ast.Slice) and t_.slice.lower is None and t_.slice.upper is None for t_ in st.targets):
+                    state["restart"] = True
+                elif isinstance(st, ast.Assign) and len(st.targets) == 1 and isinstance(st.targets[0], ast.Name) and isinstance(st.value, ast.Attribute) and st.value.attr == "append":
+                    continue  # bound-method alias of the (new) line's append
+                elif isinstance(st, ast.Assign) and len(st.targets) == 1 and isinstance(st.targets[0], ast.Name):
+                    okc, val = _fold_env(st.value, env)
+                    if not okc:
+                        raise AnalysisError(f"decode_line: `{short(st)}` cannot be folded for the piece {piece!r}")
+                    env[st.targets[0].id] = val
+                elif isinstance(st, ast.Assign) and len(st.targets) == 1 and isinstance(st.targets[0], ast.Tuple) and all(isinstance(e_, ast.Name) for e_ in st.targets[0].elts):
+                    okc, val = _fold_env(st.value, env)
+                    if not okc or not isinstance(val, (tuple, list)) or len(val) != len(st.targets[0].elts):
+                        raise AnalysisError(f"decode_line: `{short(st)}` cannot be folded for the piece {piece!r}")
+                    for e_, v_ in zip(st.targets[0].elts, val):
+                        env[e_.id] = v_
+                elif isinstance(st, ast.Expr) and isinstance(st.value, ast.Call) and st.value.args and (norm(st.value.func) == "append" or norm(st.value.func).endswith(".append") or (
+                        isinstance(st.value.func, ast.Name) and norm(al1915.get(st.value.func.id, st.value.func)).endswith(".append"))):
+                    a0_ = st.value.args[0]
+                    if isinstance(a0_, ast.Tuple) and a0_.elts:
+                        a0_ = a0_.elts[0]  # (text, style) pairs collected in a list of pieces
+                    okc, val = _fold_env(a0_, env)
+                    if not okc:
+                        raise AnalysisError(f"decode_line: `{short(st)}` cannot be folded for the piece {piece!r}")
+                    state["out"] = (state["out"] or "") + val
+                elif isinstance(st, ast.Expr) and isinstance(st.value, ast.Constant):
+                    continue
+                else:
+                    raise AnalysisError(f"decode_line: `{short(st)}` in the plain-text branch is not folded by this rule")
+        run(branch.body)
+        return state["restart"], state["out"]
+    wherec = f"{m.relpath}:{branch.lineno}"
+    for piece, want in (("ab", (False, "ab")), ("xy\rab", (True, "ab")), ("xy\r", (True, ""))):
+        got = fold_piece(piece)
+        got = (got[0], got[1] or "")
+        ctx.check(got == want, f.fq, f"plain piece {piece!r}", wherec, f"the piece {piece!r}: restart={got[0]}, appended {got[1]!r}",
+                  f"for the plain-text piece {piece!r} the decoder {'restarts' if got[0] else 'does not restart'} the line and appends {got[1]!r} (expected: {'restart' if want[0] else 'no restart'}, {want[1]!r}): " +
+                  ("text decoded before this piece is thrown away although no carriage return was seen - every line with an escape sequence in the middle loses what precedes it" if got[0] and not want[0] else "the line rewritten in place does not show its final state"))
 
 
 def r19_4(ctx):
